@@ -155,8 +155,9 @@ Definition dec_method (row : list Z) : option method :=
   | r :: im :: rt :: rl :: n :: args =>
       (* bit 2 (+4): the method has a default body; bit 3 (+8): explicit lifetime generics — neither changes the generated glue *)
       let im := im mod 4 in
-      (* receiver field: low 2 bits = receiver kind, bit 2 (+4) = #[vtbl_only] *)
-      Some (mkm (dec_recv (r mod 4)) (if im =? 1 then IOn else if im =? 2 then IOff else IDefault) (dec_rshape rt) (rl mod 9) (dec_args (zn n) args) (4 <=? r))
+      (* receiver field: low 2 bits = receiver kind, bit 2 (+4) = #[vtbl_only], bit 3 (+8) = the method also carries a doc comment and an
+         unrelated attribute — which changes nothing *)
+      Some (mkm (dec_recv (r mod 4)) (if im =? 1 then IOn else if im =? 2 then IOff else IDefault) (dec_rshape rt) (rl mod 9) (dec_args (zn n) args) (Z.testbit r 2))
   | _ => None
   end.
 Fixpoint dec_methods (rows : list (list Z)) : option (list method) :=
